@@ -24,6 +24,8 @@ def run(ctx):
             'symbolic position, dyadic samples k/8 (all f32 arithmetic exact): next_squared == mean of the last N squares '
             '(earlier ones counted as 0), >= 0, reset restores the zero state, current() is its square root within 1e-4')
     ctx.bounded.append(note)
-    hs = ['c11_b_rms'] + (['c11_t_rms'] if ctx.tier == 'thorough' else [])
+    ctx.bounded.append('BOUNDED: the signal::rms adaptor feeds each of 3 symbolic source frames exactly once and in order to the running RMS '
+                       '(outputs bit-equal to a directly driven Rms; pull count; exhaustion is the source\'s)')
+    hs = ['c11_b_rms', 'c11_adaptor_rms'] + (['c11_t_rms'] if ctx.tier == 'thorough' else [])
     run_kani(ctx, 'envelope', harness=hs, rustflags='--cfg rustaudio_dasp_verif', harness_timeout='25m', bounded_note=note,
              soft_timeout=(ctx.tier == 'thorough'))
